@@ -209,12 +209,7 @@ func genC20(out, tier string, rng *rand.Rand) {
 	for _, en := range leveldbEngines() {
 		// a table large enough to live in leveldb table files (the iterator then reads through a
 		// table reader that Clear's Close releases)
-		setup := []Call{{Req: Req{Kind: "create", Parent: parentA, Tid: "t1", Fams: []FamDef{{Name: "cf"}}}, Now: 1000000}}
-		big := bytes.Repeat([]byte("v"), 600)
-		for i := 0; i < 24; i++ {
-			b := BulkRow{Key: scanKey(i), Fam: "cf", NQ: 3, NV: 350, Base: 1000000, V: big}
-			setup = append(setup, Call{Req: Req{Kind: "mutate", Table: concTable, Key: b.Key, Muts: b.muts()}, Now: 1000000})
-		}
+		setup := bigTableSetup()
 		scan := Call{Req: Req{Kind: "read", Table: concTable}, Now: 1}
 		drop := Call{Req: Req{Kind: "drop", Table: concTable, All: true}, Now: 1}
 		cc := runConc(en, setup, [][]Call{{scan}, {drop}}, []int{0, 0, 1, 0, 0, 0}, nil, nil, "dropall-under-scan")
@@ -233,6 +228,8 @@ func genC20(out, tier string, rng *rand.Rand) {
 			sched   []int
 			tag     string
 		}{
+			{[][]Call{{scan}, {drop, drop}}, []int{0, 0, 1, 1, 0, 0, 0}, "two-clears-under-scan"},
+			{[][]Call{{scan}, {drop, wr, drop}}, []int{0, 0, 1, 0, 1, 1, 1, 0, 1, 0, 0}, "clear-write-clear-under-scan"},
 			{[][]Call{{scan}, {del}}, []int{0, 0, 1, 0, 0, 0}, "delete-table-under-scan"},
 			{[][]Call{{wr}, {del}}, []int{0, 1, 0, 0, 0}, "delete-table-before-write-lock"},
 			{[][]Call{{rmw}, {del}, {scan}}, []int{0, 2, 2, 1, 0, 2, 0, 2}, "delete-table-under-rmw-and-scan"},
@@ -244,6 +241,31 @@ func genC20(out, tier string, rng *rand.Rand) {
 			pd := cd.pseudo()
 			jd, _ := json.Marshal(cd)
 			sink.AddOracleOnly(pd, string(jd), jd, true)
+		}
+	}
+	// a streamed read whose client goes away (Send fails at the first, second, last message), alone and
+	// with a second reader parked mid-scan: whatever it answers, the emulator keeps serving
+	for _, en := range engines() {
+		for _, failAt := range []int{1, 2, 24} {
+			st, cleanup := en.mk()
+			e := NewEmu(st)
+			var obs []Resp
+			prog := append(append([]Call{}, bigTableSetup()...),
+				Call{Req: Req{Kind: "read", Table: concTable, FailSend: failAt}, Now: 1},
+				Call{Req: Req{Kind: "mutate", Table: concTable, Key: scanKey(40), Muts: []Mutation{{Kind: "set", Fam: "cf", Q: []byte("after"), Ts: 1000, V: []byte("w")}}}, Now: 5000},
+				Call{Req: Req{Kind: "read", Table: concTable, Keys: [][]byte{scanKey(40)}}, Now: 1})
+			for _, c := range prog {
+				obs = append(obs, e.Exec(c))
+			}
+			last := &obs[len(obs)-1]
+			if last.Code != 0 || len(last.Rows) != 1 {
+				last.Notes = append(last.Notes, "after a streamed read whose client went away, a write and a read are not served")
+			}
+			closeEmu(e)
+			cleanup()
+			pc := Case{Store: en.name, Tag: "abandoned-stream", Prog: prog[len(prog)-3:], Obs: obs[len(obs)-3:]}
+			js, _ := json.Marshal(pc)
+			sink.AddOracleOnly(pc, string(js), js, true)
 		}
 	}
 	// (c) concurrent mixes under the race detector
